@@ -99,7 +99,82 @@ pub fn b_num_triple<S: Src>(s: &mut S) -> Result<(), String> {
 }
 harness!(c35_num_triple, b_num_triple, 4);
 
+/// sort_rows on two one-column rows with numeric values: never panics, output is a permutation
+/// of the input in the requested direction
+pub fn b_sort2<S: Src>(s: &mut S) -> Result<(), String> {
+    use inputlayer::protocol::handler::verif_sort_rows;
+    use inputlayer::protocol::wire::WireTuple;
+    use inputlayer::statement::SortDirection;
+    let a = any_num(s);
+    let b = any_num(s);
+    let desc = s.bool();
+    let (a2, b2) = (a.clone(), b.clone());
+    let rows = vec![WireTuple::new(vec![a.unwrap()]), WireTuple::new(vec![b.unwrap()])];
+    let dir = if desc { SortDirection::Desc } else { SortDirection::Asc };
+    let out = verif_sort_rows(rows, &[(0, dir)]);
+    let mut r = Ok(());
+    if out.len() != 2 {
+        r = Err(String::from("sort changes the number of rows"));
+    } else {
+        let c = cmpw(out[0].values.get(0), out[1].values.get(0));
+        let bad = if desc { c == Ordering::Less } else { c == Ordering::Greater };
+        if bad {
+            r = Err(String::from("rows out of order after sort"));
+        }
+        let same = |x: Option<&WireValue>, y: &Option<WireValue>| cmpw(x, y.as_ref()) == Ordering::Equal;
+        let keep = (same(out[0].values.get(0), &a2) && same(out[1].values.get(0), &b2))
+            || (same(out[0].values.get(0), &b2) && same(out[1].values.get(0), &a2));
+        if !keep {
+            r = Err(String::from("sort output is not a permutation of its input"));
+        }
+    }
+    cover!(desc, "descending");
+    std::mem::forget(out);
+    r
+}
+harness!(c35_sort2, b_sort2, 4);
+
+/// apply_pagination on three rows: exactly rows[offset .. offset+limit]
+pub fn b_page3<S: Src>(s: &mut S) -> Result<(), String> {
+    use inputlayer::protocol::handler::verif_apply_pagination;
+    use inputlayer::protocol::wire::WireTuple;
+    let rows = vec![
+        WireTuple::new(vec![WireValue::Int64(10)]),
+        WireTuple::new(vec![WireValue::Int64(11)]),
+        WireTuple::new(vec![WireValue::Int64(12)]),
+    ];
+    let has_l = s.bool();
+    let has_o = s.bool();
+    let l = s.u8() as usize;
+    let o = s.u8() as usize;
+    let limit = if has_l { Some(l) } else { None };
+    let offset = if has_o { Some(o) } else { None };
+    let out = verif_apply_pagination(rows, limit, offset);
+    let start = if has_o { o } else { 0 };
+    let avail = if start >= 3 { 0 } else { 3 - start };
+    let want = if has_l && l < avail { l } else { avail };
+    let mut r = Ok(());
+    if out.len() != want {
+        r = Err(String::from("page has the wrong number of rows"));
+    } else {
+        let mut i = 0;
+        while i < out.len() {
+            let ok = matches!(out[i].values.get(0), Some(WireValue::Int64(v)) if *v == 10 + (start + i) as i64);
+            if !ok {
+                r = Err(String::from("page is not the requested slice"));
+            }
+            i += 1;
+        }
+    }
+    cover!(want == 2, "two-row page");
+    std::mem::forget(out);
+    r
+}
+harness!(c35_page3, b_page3, 5);
+
 pub fn register(v: &mut Vec<(&'static str, NativeBody)>) {
+    v.push(("c35_sort2", b_sort2::<NativeSrc>));
+    v.push(("c35_page3", b_page3::<NativeSrc>));
     v.push(("c35_pair", b_pair::<NativeSrc>));
     v.push(("c35_triple", b_triple::<NativeSrc>));
     v.push(("c35_num_triple", b_num_triple::<NativeSrc>));
